@@ -1,5 +1,5 @@
 CONSTANTS
-  MaxSteps = 2000
+  MaxSteps = 40000
   Family = "cli"
   Tier = "quick"
 INIT Init
